@@ -13,6 +13,7 @@ package props
 import (
 	"bytes"
 	"fmt"
+	"io"
 	"math/rand/v2"
 	"strconv"
 	"strings"
@@ -22,6 +23,7 @@ import (
 	"seehuhn.de/go/postscript/funit"
 	"seehuhn.de/go/postscript/type1"
 
+	"verif/harness/mon"
 	"verif/harness/ref"
 	"verif/harness/rt"
 )
@@ -249,8 +251,10 @@ func genModelFontOpt(rng *rand.Rand, nested bool) *modelFont {
 		Factor:    rng.IntN(4),
 		FiveByte:  []int{0, 0, 10, 100}[rng.IntN(4)],
 		General:   []int{0, 0, 30, 100}[rng.IntN(4)],
+		LineEnd:   []string{"\n", "\n", "\r", "\r\n"}[rng.IntN(4)],
 	}
 	mf.lay = lay
+	mf.feat[fmt.Sprintf("clear text line ends %q", lay.LineEnd)] = true
 	big := rng.IntN(60) == 0
 	if big {
 		modelSegBoost = true
@@ -316,7 +320,11 @@ func genModelFontOpt(rng *rand.Rand, nested bool) *modelFont {
 	}
 	// FontMatrix (default when absent)
 	want.FontInfo.FontMatrix = matrix.Matrix{0.001, 0, 0, 0.001, 0, 0}
-	switch rng.IntN(6) {
+	switch rng.IntN(7) {
+	case 6:
+		w.FontMatrix = []string{"0", "0", "0", "0", "0", "0"}
+		want.FontInfo.FontMatrix = matrix.Matrix{0, 0, 0, 0, 0, 0}
+		mf.feat["font matrix of six zeros"] = true
 	case 4:
 		w.FontMatrix = []string{"0", "0.001", "-0.001", "0", "0", "0"}
 		want.FontInfo.FontMatrix = matrix.Matrix{0, 0.001, -0.001, 0, 0, 0}
@@ -625,9 +633,31 @@ func runC06(r *rt.Runner) {
 				c.Violation("SELF-CHECK", "harness inconsistency (independent writer vs independent reader): "+msg, "")
 				return
 			}
-			f, err := type1.Read(bytes.NewReader(data))
+			// the source: a reader positioned at the start, a seekable reader
+			// positioned behind other data, or a plain stream in arbitrary chunks
+			var src io.Reader = bytes.NewReader(data)
+			srcDesc := "bytes.Reader"
+			switch rng.IntN(5) {
+			case 0:
+				const wrapper = "%!PS-AdobeFont-1.0: Wrapper\n\x80\x01\x00 /x def"
+				prefix := make([]byte, 1+rng.IntN(300))
+				for i := range prefix {
+					prefix[i] = wrapper[rng.IntN(len(wrapper))]
+				}
+				br := bytes.NewReader(append(prefix, data...))
+				if rng.IntN(2) == 0 {
+					br.Seek(int64(len(prefix)), io.SeekStart)
+				} else {
+					io.CopyN(io.Discard, br, int64(len(prefix)))
+				}
+				src, srcDesc = br, fmt.Sprintf("seekable reader positioned at offset %d", len(prefix))
+			case 1:
+				src, srcDesc = &mon.PlanReader{Data: data, Chunks: randChunks(rng)}, "stream delivered in chunks"
+			}
+			f, err := type1.Read(src)
+			c.Count("source: " + strings.SplitN(srcDesc, " at offset", 2)[0])
 			if err != nil {
-				c.Violation("read-error|"+errClass(err), fmt.Sprintf("type1.Read rejected a conforming font (%s): %v", mf.lay.Container, err), "")
+				c.Violation("read-error|"+errClass(err), fmt.Sprintf("type1.Read rejected a conforming font (%s, %s): %v", mf.lay.Container, srcDesc, err), "")
 				return
 			}
 			if d := compareFonts(mf.want, f, fontTol{coord: 1e-9, skipStems: mf.skipStems, inexact: mf.ratSB}); len(d) > 0 {
